@@ -42,7 +42,7 @@ def member_params(i):
         if 'rename_keys' not in chosen:
             pass
     if 'separators' in chosen:
-        p.update(sep=rng.choice(['-', '+', '__']), prod=rng.choice(['WORKAREA', 'prod_v2']), assets='LIB', shots='SEQS', outdir='OUT', exportdir='EXP')
+        p.update(sep=rng.choice(['-', '~', '__']), prod=rng.choice(['WORKAREA', 'prod_v2']), assets='LIB', shots='SEQS', outdir='OUT', exportdir='EXP')
     if 'vocab' in chosen:
         p.update(vprefix=rng.choice(['r', 'ver']), vdigits=rng.choice([2, 4]), sq=('s', 2), sh=('p', 3),
                  states=[('wip', 'WIP'), ('pub', 'PUB'), ('rev', 'REVIEW')][:rng.choice([2, 3])],
